@@ -199,6 +199,19 @@ func Run(o Options) int {
 		round = next
 	}
 
+	// a unit whose contract another unit of this run relies on counts with all its obligations, whatever properties its
+	// clauses are tagged with (the caller's proof assumes every one of its postconditions)
+	usedByOthers := map[string]bool{}
+	for i, uo := range outs {
+		if uo.res == nil {
+			continue
+		}
+		for _, k := range uo.res.UsedContracts {
+			if k != units[i].Key {
+				usedByOthers[k] = true
+			}
+		}
+	}
 	var problems []string
 	var unitLost []lostUnit
 	problems = append(problems, relevantProblems(w, o.Prop)...)
@@ -254,7 +267,7 @@ func Run(o Options) int {
 				if ob.Kind != "safe" && ob.Kind != "decreases" && ob.Kind != "call-pre" && !vc.TagHasProp(ob.Tag, "C09") {
 					continue
 				}
-			} else if !o.Sweep && !isDep[u.Name] && !uo.res.Belongs(ob, o.Prop) {
+			} else if !o.Sweep && !isDep[u.Name] && !usedByOthers[u.Key] && !uo.res.Belongs(ob, o.Prop) {
 				continue
 			}
 			if o.Sweep && ob.Kind != "safe" {
